@@ -9,6 +9,9 @@ EVENTS = {"AcceptStart": 1, "AccDecided": 1, "UlReturn": 1, "AccEnq": 1, "Accept
 
 GROUPS = {  # name -> (Q, M, MaxBytes, DirUsable)
     "A": (2, 2, 3, True), "B": (3, 2, 4, True), "C": (2, 4, 5, True), "nodir": (2, 2, 3, False)}
+# a short queue under a roomy byte limit: the queue overflows while chunks can still be spilled, so chunks that are already saved
+# are dropped (their files stay and keep counting against the limit).  No -simulate cfg of its own: stories and seeded scripts
+EXTRA_GROUPS = {"D": (1, 2, 6, True)}
 
 
 def ids_in(txt):
@@ -62,7 +65,7 @@ def script_from_behaviour(beh, sid, rnd, group):
 
 
 def random_script(sid, rnd, group):
-    q, m, mb, dirok = GROUPS[group]
+    q, m, mb, dirok = ALL_GROUPS[group]
     sc = {"id": sid, "seed": rnd.randrange(1 << 30), "jitter": rnd.random() < 0.6, "q": q, "m": m, "maxBytes": mb,
           "nodir": not dirok, "early": rnd.random() < 0.3, "gens": []}
     total = 0
@@ -83,11 +86,14 @@ def random_script(sid, rnd, group):
     return sc
 
 
+ALL_GROUPS = dict(GROUPS, **EXTRA_GROUPS)
+
+
 def stop_stories(group):
     """Destroy with a consumer that does not read its input (it waits for the InputClosed signal, as a forwarder does while its
     upstream refuses): every number of accepted chunks from none to window + queue + 2, the consumer having taken 0..M of them -
     in particular the window exactly full with one chunk in the feeder's hands and nothing queued behind it"""
-    q, m, mb, dirok = GROUPS[group]
+    q, m, mb, dirok = ALL_GROUPS[group]
     out = []
     for k in range(0, q + m + 3):
         for j in range(0, min(k, m) + 1):
@@ -102,7 +108,7 @@ def stop_stories(group):
 
 
 def consts_for(group):
-    q, m, mb, dirok = GROUPS[group]
+    q, m, mb, dirok = ALL_GROUPS[group]
     return {"Q": q, "M": m, "MaxBytes": mb, "DirUsable": "TRUE" if dirok else "FALSE"}
 
 
